@@ -632,6 +632,14 @@ def check(repo, rep, funcs, rule="R-EFFECT"):
             last = q_.split(".")[-1]
             if (inv is None or q_ not in inv["functions"]) and last.startswith("_") and not last.startswith("__") and "<locals>" not in q_:
                 new_helpers.add("%s.%s" % (mn, q_))
+    # private helpers of the inventory (`_name`, not dunder) are treated like new helpers as far as their *parameters* go: what they do to
+    # an argument matters where a caller hands them an object somebody else can see (a memo dict created by the caller is nobody's business)
+    param_helpers = set(new_helpers)
+    for mn, m_ in repo.modules.items():
+        for q_ in m_.functions:
+            last = q_.split(".")[-1]
+            if last.startswith("_") and not last.startswith("__") and "<locals>" not in q_:
+                param_helpers.add("%s.%s" % (mn, q_))
     callers = {}
     if new_helpers:
         names = {h.split(".")[-1]: h for h in new_helpers}
@@ -658,11 +666,11 @@ def check(repo, rep, funcs, rule="R-EFFECT"):
         derived = getattr(mu, "derived", False)
         if derived:
             callee = mu.what.split("passed to ", 1)[1].split(" which", 1)[0] if "passed to " in mu.what else None
-            if callee not in new_helpers:
+            if callee not in param_helpers:
                 continue
         for r in sorted(mu.roots):
-            if r.startswith("param:") and mu.site in new_helpers and not derived:
-                continue               # judged at the call sites of the helper
+            if r.startswith("param:") and mu.site in param_helpers:
+                continue               # judged at the call sites of the helper (its summary carries the mutated parameter upwards)
             if (r == "self" or r.startswith("selffield:")) and self_write_allowed(mu.site):
                 continue
             if r.startswith("param:") or r.startswith("global:"):
